@@ -6,6 +6,7 @@ import (
 	"fmt"
 	"image"
 	"image/draw"
+	"runtime"
 	"testing"
 
 	prism "github.com/mandykoh/prism"
@@ -358,6 +359,8 @@ func bigImages() {
 	var pairs int64
 	for _, cb := range combos {
 		for h := 1; h <= ev.Pick(160, 600); h++ {
+			// the scheduler's width must not matter either
+			runtime.GOMAXPROCS([]int{origProcs, 3, 1, 5, origProcs, 12}[h%6])
 			for p := 1; p <= ev.Pick(40, 130); p++ {
 				if !ev.Thorough() && (h*7+p*3)%3 != 0 && p > 8 && h > 24 {
 					continue // quick: every pair with p <= 8 or h <= 24, a third of the rest
@@ -396,5 +399,8 @@ func bigImages() {
 	}
 	ev.Eval(pairs)
 	ev.NTAdd(pairs)
+	runtime.GOMAXPROCS(origProcs)
 	ev.Class("height-parallelism-pairs", pairs)
 }
+
+var origProcs = runtime.GOMAXPROCS(0)
